@@ -56,7 +56,8 @@ class BanditConfig:
                         if isinstance(self._config, dict):
                             # "tool = 1" is left for the dict check below
                             self._config = self._config.get("bandit", {})
-                except tomllib.TOMLDecodeError as err:
+                except (tomllib.TOMLDecodeError, UnicodeDecodeError) as err:
+                    # TOML is UTF-8 by definition: other bytes are a parse error
                     LOG.error(err)
                     raise utils.ConfigError("Error parsing file.", config_file)
             else:
